@@ -1607,7 +1607,14 @@ pub async fn reload_config(client_server_map: ClientServerMap) -> Result<bool, E
 
     if old_config != new_config {
         info!("Config changed, reloading");
-        ConnectionPool::from_config(client_server_map).await?;
+        if let Err(err) = ConnectionPool::from_config(client_server_map).await {
+            // The pools were not rebuilt. Keep the configuration that matches them,
+            // otherwise the next reload of the same file would see "no change" and
+            // the new pools would never be created.
+            error!("Pool rebuild failed, keeping the previous configuration: {:?}", err);
+            CONFIG.store(Arc::new(old_config));
+            return Err(err);
+        }
         Ok(true)
     } else {
         Ok(false)
